@@ -178,6 +178,7 @@ def units(tier):
         Unit("C16/lemma/order-insensitive-postprocessing", reduction_lemma, "L", []),
         Unit("C16/search-call-agreement(worker = sequential)", search_agreement_unit, "P", [(KDG, "KernelDG._extend_path"), (KDG, "KernelDG.check_for_loopcarried_dep")]),
         Unit("C16/check_for_loopcarried_dep/post-processing(canonical entries)", postprocess_unit, "P", [(KDG, "KernelDG.check_for_loopcarried_dep")]),
+        Unit("C16/_get_node_by_lineno", node_by_lineno_unit, "P", [(KDG, "KernelDG._get_node_by_lineno")], decisive=False),
         bounded_unit("C16/parallel-equals-sequential", "c16_parallel", [(KDG, "KernelDG.check_for_loopcarried_dep"), (KDG, "KernelDG._extend_path")], timeout=1800),
     ]
 
@@ -349,24 +350,79 @@ def postprocess_unit(res):
     ex.abstract["nx.utils.pairwise"] = lambda ex_, so, a, kw: SymSeq(plen(a[0].p) - 1, lambda i: (SNum(node(a[0].p, i), False), SNum(node(a[0].p, i + 1), False)))
     ins = Schema("insp", ["InstructionForm"], {"line_number": ("int",)})
 
-    class AfterSort:  # phase d (dictionary) is a function of the sorted entry list: not the subject here
+    # ---- phase d: the result dictionary.  The sorted entry list is ANY sequence of (sum, pair list) entries; for entry e the
+    # code must store, under the key "-".join(str(line) for every pair), root = node of the first line, dependencies = (node of
+    # the line, latency) for every pair in order, latency = the entry's sum.
+    NE = z3.Int("n_entries")
+    esum = z3.Function("entry_sum", I, R_)
+    elen = z3.Function("entry_len", I, I)
+    eline = z3.Function("entry_line", I, I, R_)
+    elat = z3.Function("entry_lat", I, I, R_)
+    nodeof = z3.Function("node_by_lineno", R_, I)  # contract of _get_node_by_lineno (own unit)
+    nsch = Schema("lcdnode", ["InstructionForm"], {})
+
+    class ResultDict:
+        def __init__(self):
+            self.sets = 0
+
+        def sym_havoc(self, ex_, tag):
+            return self
+
+        def sym_setitem(self, ex_, key, val):
+            e = st["e"]
+            j = z3.FreshInt("j")
+            okk = isinstance(key, OpaqueStr) and getattr(key, "sep", None) == "-" and isinstance(getattr(key, "seq", None), SymSeq)
+            if okk:
+                part = key.seq.at(j)
+                okk = isinstance(part, OpaqueStr) and len(getattr(part, "args", [])) == 1
+            ex_.oblige("result/key-joins-the-lines-of-all-members", z3.And(key.seq.length == elen(e), z3.Implies(z3.And(0 <= j, j < elen(e)), real_term(part.args[0]) == eline(e, j))) if okk else False)
+            okv = isinstance(val, dict) and set(val) == {"root", "dependencies", "latency"} and isinstance(val["root"], SRef) and isinstance(val["dependencies"], SymSeq)
+            if okv:
+                d = val["dependencies"].at(j)
+                okv = isinstance(d, tuple) and len(d) == 2 and isinstance(d[0], SRef)
+            ex_.oblige("result/root-members-latency", z3.And(val["root"].t == nodeof(eline(e, 0)), real_term(val["latency"]) == esum(e), val["dependencies"].length == elen(e),
+                                                            z3.Implies(z3.And(0 <= j, j < elen(e)), z3.And(d[0].t == nodeof(eline(e, j)), real_term(d[1]) == elat(e, j)))) if okv else False)
+            self.sets += 1
+
+    class PhaseD:
         def sym_for(self, ex_, s, it, env, cls):
             ex_.extra["final_sort"] = st.get("final_sort")
-            raise PathEnd()
+            ex_.loop_hooks[("check_for_loopcarried_dep", 9)] = PhaseDBody()
+            try:
+                entries = SymSeq(NE, lambda e: (SNum(esum(e), False), SymSeq(elen(e), lambda i: (SNum(eline(e, i), False), SNum(elat(e, i), False)))))
+                return ex_.sym_for(s, entries, False, 0, env, cls)
+            finally:
+                ex_.loop_hooks[("check_for_loopcarried_dep", 9)] = self
 
-    ex.loop_hooks[("check_for_loopcarried_dep", 9)] = AfterSort()
+    class PhaseDBody:
+        def pre_havoc(self, ex_, env):
+            env["loopcarried_deps_dict"] = st["result"] = ResultDict()
+
+        def on_body_start(self, ex_, env, k):
+            st["e"] = k
+            st["result"].sets = 0
+            ex_.assume(elen(k) >= 1)  # a cycle has at least one member (post-processing: path length >= 2)
+
+        def on_body_end(self, ex_, env, k):
+            ex_.oblige("result/one-record-per-entry", st["result"].sets == 1)
+
+    ex.abstract["_get_node_by_lineno"] = lambda ex_, so, a, kw: SRef(nodeof(real_term(a[0])), nsch)
+    ex.loop_hooks[("check_for_loopcarried_dep", 9)] = PhaseD()
+    ex.invariants[("check_for_loopcarried_dep", 9)] = lambda ex_, env, k: z3.BoolVal(True)
 
     def run():
         st.clear()
         kernel = SymSeq(klen, lambda i: SRef(i, ins))
-        ex.call_method("KernelDG", "check_for_loopcarried_dep", SObj("KernelDG", kernel=kernel, INSTRUCTION_THRESHOLD=50), [kernel, -1, False])
+        return ex.call_method("KernelDG", "check_for_loopcarried_dep", SObj("KernelDG", kernel=kernel, INSTRUCTION_THRESHOLD=50), [kernel, -1, False])
 
     q = z3.Int("q")
     paths = ex.explore(run, [klen >= 1, klen < 50, NP >= 0, z3.ForAll([q], SUM(q, 0) == 0)])
     n = res.add_paths(paths, None, kind="post")
     ends = [p for p in paths if "final_sort" in p.extra]
     res.add("reaches-final-sort", [], len(ends) >= 1)
-    for p in ends:
+    rets = [p for p in paths if p.outcome[0] == "ret" and type(p.outcome[1]).__name__ == "ResultDict"]
+    res.add("returns-the-result-dictionary", [], len(rets) >= 1)
+    for p in ends[:1]:
         fs = p.extra["final_sort"]
         # entries are sorted as whole tuples (a total order on distinct entries): the final list is a function of the entry SET
         res.add("final-sort-is-a-total-order-on-entries", p.pc, fs is not None and not fs[0] and set(fs[1]) <= {"reverse"} and "key" not in fs[1])
@@ -485,4 +541,42 @@ def search_agreement_unit(res):
                     res.add(f"same-further-arguments({nm})", hyp, t1 == t2)
                 except Exception:
                     res.add(f"same-further-arguments({nm})", [], v1 is v2 or v1 == v2)
+    return res
+
+
+def node_by_lineno_unit(res):
+    """P: KernelDG._get_node_by_lineno (real code, kernels of ANY length): returns the first kernel line with that number (the
+    line itself, by identity); with all=True the list of all such lines in order; IndexError iff there is none."""
+    ex = Engine([REPO + "/" + KDG])
+    N, want = z3.Int("klen"), z3.Int("lineno")
+    lines = z3.Function("line_no", I, I)
+    ins = Schema("insn", ["InstructionForm"], {"line_number": ("int",)})
+    ins.fn["line_number"] = lines
+    j, q = z3.Ints("j q")
+    for explicit in (False, True):
+        for allflag in (False, True):
+            def run():
+                kernel = SymSeq(N, lambda i: SRef(i, ins))
+                selfo = SObj("KernelDG", kernel=kernel)
+                a = [SNum(want, True)] + ([kernel] if explicit else []) + ([None, True] if allflag and not explicit else [True] if allflag else [])
+                return ex.call_method("KernelDG", "_get_node_by_lineno", selfo, a)
+
+            paths = ex.explore(run, [N >= 0])
+            exists = z3.Exists([q], z3.And(0 <= q, q < N, lines(q) == want))
+
+            def post(v, p):
+                if allflag:
+                    if not (isinstance(v, SymSeq) and getattr(v, "filter_of", None)):
+                        return False
+                    _, idx, L, pred = v.filter_of
+                    return z3.And(z3.ForAll([j], z3.Implies(z3.And(0 <= j, j < N), pred(j) == (lines(j) == want))),
+                                  z3.ForAll([j], z3.Implies(z3.And(0 <= j, j < L), v.at(j).t == idx(j))))
+                if not isinstance(v, SRef):
+                    return False
+                return z3.And(0 <= v.t, v.t < N, lines(v.t) == want, z3.ForAll([j], z3.Implies(z3.And(0 <= j, j < v.t), lines(j) != want)))
+
+            res.add_paths(paths, post, exc_ok=lambda p: p.outcome[1] == "IndexError" and not allflag, kind=f"explicit-kernel={int(explicit)}/all={int(allflag)}")
+            for p in paths:
+                if p.outcome[0] == "exc":
+                    res.add(f"IndexError-only-when-no-such-line[{int(explicit)}{int(allflag)}]", p.pc, z3.Not(exists))
     return res
